@@ -72,8 +72,14 @@ func zzConcSmall(x, hi int) int {
 
 // ZZ_C09_caps: one rolling-update sync never plans more creations than the slow-start
 // bound nor more update-deletions than maxUnavailable.
-func ZZ_C09_caps() {
-	n := zzNumNodes(3, 5)
+func ZZ_C09_caps() { zzC09Caps(false, zzNumNodes(3, 5)) }
+
+// ZZ_C09_capsWhilePaused: the creation cap does not depend on the rolling-update-paused switch: a
+// paused active replica set "still creates pods on eligible nodes that have none" (C08) — at the
+// slow-start rate — and deletes none for updating.
+func ZZ_C09_capsWhilePaused() { zzC09Caps(true, 3) }
+
+func zzC09Caps(paused bool, n int) {
 	// categories: no pod / up-to-date / outdated available / outdated unavailable
 	cats := make([]int, n)
 	for i := range cats {
@@ -88,7 +94,11 @@ func ZZ_C09_caps() {
 			cats[i] = zzOutdatedAvailable
 		}
 	}
-	ds := zzDaemonset(map[string]string{})
+	ann := map[string]string{}
+	if paused {
+		ann[datadoghqv1alpha1.ExtendedDaemonSetRollingUpdatePausedAnnotationKey] = "true"
+	}
+	ds := zzDaemonset(ann)
 	maxPar := nondet.Int32("maxParallel", 0, int32(n+2))
 	ds.Spec.Strategy.RollingUpdate.MaxParallelPodCreation = &maxPar
 	interval := nondet.Duration("interval", time.Second, time.Hour)
@@ -138,11 +148,18 @@ func ZZ_C09_caps() {
 	nondet.Assert("C09.caps.create", int64(len(res.PodsToCreate)) <= bound)
 	nondet.Assert("C09.caps.create-only-missing", len(res.PodsToCreate) <= missing)
 	nondet.Assert("C09.caps.delete", len(res.PodsToDelete) <= int(ds.Spec.Strategy.RollingUpdate.MaxUnavailable.IntVal))
+	if paused {
+		nondet.Assert("C09.caps.paused-deletes-nothing", len(res.PodsToDelete) == 0)
+	}
 	// the ramp is not needlessly tight: with budget left every missing pod is planned
 	nondet.Assert("C09.caps.uses-budget", nondet.Or(int64(len(res.PodsToCreate)) == bound, len(res.PodsToCreate) == missing))
 	nondet.Observe("nCreate", len(res.PodsToCreate))
 	nondet.Reach("C09.caps.limited", nondet.And(int64(len(res.PodsToCreate)) == bound, missing > len(res.PodsToCreate)))
 	nondet.Reach("C09.caps.all", nondet.And(len(res.PodsToCreate) == missing, missing >= 2))
+	if paused {
+		nondet.Reach("C09.caps.paused-creates-at-the-slow-start-rate", nondet.And(int64(len(res.PodsToCreate)) == bound, missing > len(res.PodsToCreate), bound >= 1))
+		return
+	}
 	nondet.Reach("C09.caps.delete-capped", nondet.And(len(res.PodsToDelete) == int(ds.Spec.Strategy.RollingUpdate.MaxUnavailable.IntVal), len(res.PodsToDelete) >= 1, len(res.PodsToDelete) < n-missing))
 }
 
